@@ -202,16 +202,41 @@ func (v *c06) graphCheck(r *Run) {
 	r.Rep.Max("longest_path", int64(maxLen))
 	r.Rep.Add("graph_edges", int64(len(r.EdgeSrc)))
 	if done != n {
-		// some node lies on a cycle: find one with indeg > 0
-		for i := 0; i < n; i++ {
-			if indeg[i] > 0 {
-				x := &Ctx{Run: r, hist: r.Path(int32(i))}
-				if x.hist == nil {
-					x.hist = []string{}
+		// the nodes left over lie on or behind a cycle; walking backwards inside that set must
+		// revisit a node, and that node is on a cycle
+		left := func(i int32) bool { return indeg[i] > 0 }
+		pred := map[int32]int32{}
+		for i, src := range r.EdgeSrc {
+			dst := r.EdgeDst[i]
+			if left(src) && left(dst) {
+				if _, ok := pred[dst]; !ok {
+					pred[dst] = src
 				}
-				x.Violate("cycle", "the hand can return to a state it was in before: an endless play exists", "acyclic", fmt.Sprintf("%d states on or behind a cycle", n-done))
+			}
+		}
+		var start int32 = -1
+		for i := 0; i < n; i++ {
+			if left(int32(i)) {
+				start = int32(i)
 				break
 			}
+		}
+		seen := map[int32]bool{}
+		cur := start
+		for cur >= 0 && !seen[cur] {
+			seen[cur] = true
+			p, ok := pred[cur]
+			if !ok {
+				break
+			}
+			cur = p
+		}
+		if cur >= 0 {
+			x := &Ctx{Run: r, hist: r.Path(cur)}
+			if x.hist == nil {
+				x.hist = []string{}
+			}
+			x.Violate("cycle", "the hand can return to a state it was in before: an endless play exists", "acyclic", fmt.Sprintf("%d states on or behind a cycle", n-done))
 		}
 	}
 	var chips int64
